@@ -381,7 +381,12 @@ class SymInt:
     __int__ = __index__
 
     def __float__(self):
-        return float(_CUR.concretize_symint(self))
+        # int -> float is where python integers lose exactness: if the value is not bounded away from it, the first values
+        # tried are just beyond 2**53 (the engine cannot model binary64, so this is a boundary-value probe, not a proof)
+        return float(_CUR.concretize_symint(self, prefer=_FLOAT_EDGE))
+
+    def __complex__(self):
+        return complex(float(self))
 
     def __hash__(self):
         return hash(_CUR.concretize_symint(self))
@@ -396,6 +401,7 @@ class SymInt:
     __ceil__ = __trunc__
 
 
+_FLOAT_EDGE = (2 ** 53 + 1, -(2 ** 53 + 1))
 _CMP = {'lt': lambda a, b: a < b, 'le': lambda a, b: a <= b, 'gt': lambda a, b: a > b,
         'ge': lambda a, b: a >= b, 'eq': lambda a, b: a == b, 'ne': lambda a, b: a != b}
 _ZCMP = _CMP
@@ -817,6 +823,7 @@ class Explorer:
     def _budget(self):
         if time.perf_counter() - self._t0 > self.time_limit:
             self.inconclusive_reasons.append('time limit')
+            self._aborting = True  # a C boundary (numpy, ...) may turn the Abort into another exception: remember why
             raise Abort()
 
     # ---- decisions
@@ -871,7 +878,7 @@ class Explorer:
         if aid is not None:
             self.known[aid] = v
 
-    def _concretize(self, z, real=False, aid=None):
+    def _concretize(self, z, real=False, aid=None, prefer=()):
         excluded = []
         if self.pos < len(self.prefix):
             kind, val = self.prefix[self.pos]
@@ -890,6 +897,12 @@ class Explorer:
             raise Abort()
         m = self._get_model()
         v = _pyval(m.eval(z, model_completion=True))
+        for pv in prefer:  # boundary values first, when feasible and not tried yet
+            if pv not in excluded and pv != v:
+                r0, m0 = self._sat_with(z == _znum(pv))
+                if r0 == z3.sat:
+                    v, self.model = pv, m0
+                    break
         if real and excluded:
             # a real with more than one value cannot be enumerated
             self.inconclusive_reasons.append('concretisation of an unconstrained real')
@@ -912,7 +925,7 @@ class Explorer:
         self._pin(z, v, aid)
         return v
 
-    def _concretize_atom(self, aid):
+    def _concretize_atom(self, aid, prefer=()):
         z = _ATOMS[aid]
         if z.num_args() > 0 and self.subs:  # compound atom: may already be determined by pinned atoms
             zr = self._reduce(z)
@@ -920,16 +933,16 @@ class Explorer:
                 v = zr.as_long()
                 self.known[aid] = v
                 return v
-        return self._concretize(z, aid=aid)
+        return self._concretize(z, aid=aid, prefer=prefer)
 
-    def concretize_symint(self, s):
+    def concretize_symint(self, s, prefer=()):
         v = s._eval()
         if v is not None:
             return v
         known = self.known
         for aid in list(s.lin):
             if aid not in known:
-                self._concretize_atom(aid)
+                self._concretize_atom(aid, prefer)
         return s._eval()
 
     def concretize_real(self, z):
@@ -1107,6 +1120,8 @@ class Explorer:
                 except EngineError:
                     raise
                 except Exception as e:  # escaped the harness: a violation in itself
+                    if getattr(self, '_aborting', False):
+                        break  # the budget ran out inside foreign code that re-raised differently: inconclusive, not a verdict
                     import traceback
                     tb = traceback.extract_tb(e.__traceback__)
                     where = '; '.join(f'{f.filename.split("/")[-1]}:{f.lineno}:{f.name}' for f in tb[-4:])
